@@ -130,7 +130,7 @@ def _cycle(pool, n):
 @st.composite
 def _shape(draw, min_series, max_series=50, max_points=300):
     """-> (n_series, n_points, shape class)"""
-    cls = draw(st.sampled_from(["small"] * 6 + ["zero", "zero", "many", "many", "long", "tiny", "tiny", "mid"]))
+    cls = draw(st.sampled_from(["small"] * 6 + ["zero", "zero", "many", "many", "long", "tiny", "tiny", "mid", "medium-long"]))
     if cls == "zero":
         if min_series > 0:
             cls = "small"
@@ -142,6 +142,8 @@ def _shape(draw, min_series, max_series=50, max_points=300):
         return (draw(st.integers(27, max(27, max_series))), draw(st.integers(1, 4)), "many")
     if cls == "long":
         return draw(st.integers(1, 2)), draw(st.integers(100, max(100, max_points))), "long"
+    if cls == "medium-long":
+        return draw(st.integers(max(1, min_series), 8)), draw(st.integers(31, min(99, max(31, max_points)))), "medium-long"
     if cls == "tiny":
         return draw(st.integers(max(1, min_series), 3)), draw(st.integers(0, 1)), "tiny"
     return draw(st.integers(7, 26)), draw(st.integers(5, 30)), "mid"
